@@ -136,6 +136,10 @@ func (p *parser) jumpLength() (int, error) {
 		return length, errors.New("Invalid length")
 	}
 
+	if offset+length < offset {
+		return length, errors.New("Invalid length")
+	}
+
 	return offset + length, nil
 }
 
